@@ -303,8 +303,20 @@ func (g *PageGen) quote(depth int) string {
 	return sb.String()
 }
 
+// commaURL: an image-CDN style URL with a transformation list (commas) in its path
+func (g *PageGen) commaURL(ext string) string {
+	u := g.mediaURL(ext)
+	i := strings.LastIndex(u, "/")
+	return u[:i] + "/w_400,h_300,c_fill" + u[i:]
+}
+
 func (g *PageGen) img() string {
-	switch g.R.Intn(5) {
+	switch g.R.Intn(7) {
+	case 5:
+		// srcset candidates whose URLs contain commas (never at the end of the URL)
+		return `<img src="` + g.mediaURL("jpg") + `" srcset="` + g.commaURL("jpg") + ` 400w, ` + g.commaURL("jpg") + ` 800w"` + g.deco() + `>`
+	case 6:
+		return `<picture` + g.deco() + `><source srcset="` + g.commaURL("webp") + ` 1x,` + g.mediaURL("webp") + ` 2x"><img src="` + g.mediaURL("jpg") + `" srcset="data:image/gif;base64,R0lGODlhAQABAAAAACw= 1x, ` + g.mediaURL("jpg") + ` 2x"></picture>`
 	case 0:
 		return `<img data-src="` + g.mediaURL("jpg") + `"` + g.deco() + `>`
 	case 1:
@@ -605,8 +617,50 @@ func (g *PageGen) block(depth int) string {
 		return g.para()
 	case "baretext":
 		return g.words(g.R.Range(3, 25)) + "\n"
+	case "exotic":
+		return g.exotic(depth)
 	}
 	return g.para()
+}
+
+// exoticTags: element names outside the article vocabulary of the other block kinds — obsolete,
+// rare, sectioning, interactive, ruby, definition lists, custom and unknown elements
+var exoticTags = []string{"menu", "dir", "dl", "dt", "dd", "details", "summary", "dialog", "address", "aside", "main", "nav",
+	"header", "footer", "hgroup", "center", "marquee", "blink", "big", "small", "tt", "strike", "s", "del", "ins", "mark", "q", "cite",
+	"abbr", "acronym", "dfn", "kbd", "samp", "var", "sub", "sup", "time", "data", "output", "meter", "progress", "ruby", "rt", "rp",
+	"bdi", "bdo", "wbr", "fieldset", "legend", "label", "optgroup", "datalist", "map", "area", "canvas", "audio", "track", "slot",
+	"template", "nobr", "listing", "xmp", "plaintext", "noembed", "noframes", "frameset", "frame", "basefont", "bgsound", "isindex",
+	"multicol", "spacer", "keygen", "command", "content", "shadow", "image", "math", "mi", "svg", "g", "text", "foreignobject",
+	"my-element", "x-card", "o:p", "fb:like", "unknowntag", "h7", "article", "section", "figure", "figcaption", "caption", "th", "tr"}
+
+// exotic: one of those elements around text, inline content, list items or nested blocks
+func (g *PageGen) exotic(depth int) string {
+	t := exoticTags[g.R.Intn(len(exoticTags))]
+	var in string
+	switch g.R.Intn(6) {
+	case 0:
+		in = g.words(g.R.Range(1, 30))
+	case 1:
+		in = g.inline(g.R.Range(3, 20), 0)
+	case 2:
+		for i := g.R.Range(1, 4); i > 0; i-- {
+			in += "<li>" + g.words(g.R.Range(1, 12)) + "</li>"
+		}
+	case 3:
+		if depth < 3 {
+			in = g.blocks(g.R.Range(1, 3), depth+1)
+		} else {
+			in = g.para()
+		}
+	case 4:
+		in = "<" + exoticTags[g.R.Intn(len(exoticTags))] + ">" + g.words(g.R.Range(1, 8)) + "</p>" + g.words(3)
+	default:
+		in = ""
+	}
+	if g.R.Chance(15) {
+		return "<" + t + g.deco() + ">" + in + "\n" // left open
+	}
+	return "<" + t + g.deco() + ">" + in + "</" + t + ">\n"
 }
 
 func (g *PageGen) blocks(n, depth int) string {
